@@ -8,7 +8,8 @@
 //
 //	harness-inflight one   '<json case>'         run a single history verbosely (replay)
 //	harness-inflight perm  quick|thorough        C10: payload-tagged responses in all permutations
-//	harness-inflight sock  quick|thorough        C16: scripted socket sessions, goroutine accounting
+//	harness-inflight sock  quick|thorough        C16: scripted socket sessions, goroutine accounting; more connections than MaxConnections
+//	harness-inflight wire  quick|thorough        C10: real connections, v3..v5/DSE, responses in every order, header-only and coalesced frames
 //	harness-inflight stress quick|thorough       concurrent senders + responder on the real handler
 package main
 
@@ -544,6 +545,9 @@ func runCaseOnce(c Case, verbose bool) (res Result) {
 				} else if c.Conn {
 					if after.Queued == bt.Queued+1 {
 						target.expect = append(target.expect, int64(step))
+					} else if !wasDead && !closedSeen && bt.Queued < c.P {
+						// processIncomingFrame only logs the handler's error: seen from outside, the frame did not arrive
+						viol("delivery-failed", "frame for live request #%d, which had %d of maxPending %d frames waiting, was not delivered (request now done=%v err=%q)", i, bt.Queued, c.P, after.Done, after.ErrClass)
 					}
 				} else {
 					if after.Queued != bt.Queued {
@@ -551,6 +555,10 @@ func runCaseOnce(c Case, verbose bool) (res Result) {
 					}
 					if !wasDead && !closedSeen && cls != "too-many-pending" {
 						viol("delivery-failed", "delivery to live request #%d failed with %q", i, cls)
+					}
+					// "too many pending" is the answer to page number maxPending+1 that nobody has read, not to an earlier one
+					if !wasDead && !closedSeen && cls == "too-many-pending" && bt.Queued < c.P {
+						viol("delivery-failed", "delivery to live request #%d failed with %q although only %d of maxPending %d frames were waiting (channel capacity %d)", i, cls, bt.Queued, c.P, bt.Capacity)
 					}
 				}
 				if !last {
@@ -1423,6 +1431,42 @@ func permCases(tier string) []Case {
 			}
 		}
 	}
+	// maxInFlight < maxPending: responses of more than maxInFlight and up to maxPending pages that nobody reads before the last
+	// one has arrived (every page must be kept), then one page too many; through the handler and through processIncomingFrame
+	for _, n := range []int{1, 2, 3} {
+		for _, p := range []int{n + 1, n + 3} {
+			for _, conn := range []bool{false, true} {
+				send := "M"
+				if conn {
+					send = "S0"
+				}
+				for pages := n + 1; pages <= p; pages++ {
+					var ops []string
+					for i := 0; i < n; i++ {
+						ops = append(ops, send)
+					}
+					for pg := 1; pg < pages; pg++ { // round robin over the n requests
+						for k := 1; k <= n; k++ {
+							ops = append(ops, "D"+strconv.Itoa(k))
+						}
+					}
+					for k := n; k >= 1; k-- {
+						ops = append(ops, "L"+strconv.Itoa(k))
+					}
+					ops = append(ops, send, "D1")
+					for i := 0; i < p; i++ {
+						ops = append(ops, "D1") // the last of these is page maxPending+1
+					}
+					ops = append(ops, "L1")
+					g := "perm-wide"
+					if conn {
+						g += "-conn"
+					}
+					cases = append(cases, Case{Id: len(cases), Group: g, Conn: conn, Level: 1, N: n, P: p, T: bigT, Ops: ops})
+				}
+			}
+		}
+	}
 	// pages = maxPending + 1 without a consumer: overflow closes exactly that request
 	for k := 1; k <= 3; k++ {
 		for _, perm := range permutations(k) {
@@ -1506,6 +1550,9 @@ func main() {
 		processDeadline(subDeadline(tier)) // every wait inside is bounded; this is the last resort
 		sockSessions(tier)
 		acceptSessions(tier)
+	case "wire":
+		processDeadline(subDeadline(tier))
+		wireSessions(tier)
 	case "stress":
 		processDeadline(subDeadline(tier))
 		stress(tier)
